@@ -38,6 +38,7 @@ LEVEL = {
                    "excluded as infeasible by CPython rules are listed in the evidence.",
     "technique": "static analysis: finite-domain abstract evaluation of __aexit__ against a frozen decision table",
 }
+LEVEL["decided"] += " The table includes reactions that raise a new exception explicitly chained to the block's (`raise New from err`); (R13.4) decorator use creates a new manager per call (R15.2, shared)."
 
 HIER = {
     "BaseException": None, "Exception": "BaseException", "GeneratorExit": "BaseException",
